@@ -26,12 +26,20 @@
 (* invariants demand the per-reader decision: no candidate that requires   *)
 (* submessage protection gets the plaintext, every candidate that needs no *)
 (* protection and is matched to the sender gets it.                        *)
+(*                                                                         *)
+(* Governance documents (MGovs, see GovKinds): besides the rtps kind the   *)
+(* DOMAIN rule's discovery / liveliness protection kinds, which decide the *)
+(* submessage protection of the builtin secure endpoints (pmsec, pubsec,   *)
+(* subsec, psec).  Shapes of DATA / DATAFRAG (MForms, see SecGateSem):     *)
+(* serialized data, serialized key, inline QoS only, both flags, nothing.  *)
 (***************************************************************************)
 EXTENDS SecGateSem, TLC, Json
 
 CONSTANTS MDests,     \* destinations / topics used by the alphabet
           MKinds,     \* submessage kinds used by the alphabet
-          MGovs,      \* governance documents: "N" (rtps NONE), "S" (SIGN), "E" (ENCRYPT)
+          MGovs,      \* governance documents: "N" (rtps NONE), "S" (SIGN), "E" (ENCRYPT) with discovery = liveliness =
+                      \* ENCRYPT, or three letters <rtps><discovery><liveliness> (see GovKinds)
+          MForms,     \* shapes of DATA submessages used by the alphabet (DATAFRAG: those of "D", "K")
           MaxLen,     \* wire positions per datagram
           MXm,        \* matching configurations, by index (see XmOf): 0 = every reader matched to its peer writer only
           MWraps,     \* "all": every addressing of the protected submessage; "unknown": only those without reader id
@@ -41,10 +49,32 @@ CONSTANTS MDests,     \* destinations / topics used by the alphabet
 VARIABLES gov, m, st, lastDel, protOK, flowOK
 vars == <<gov, m, st, lastDel, protOK, flowOK>>
 
-El(t, kind, dst, wr, pay, w, who) ==
-  [t |-> t, id |-> 0, kind |-> kind, dst |-> dst, wr |-> wr, pay |-> pay, w |-> w, who |-> who]
+\* The governance documents of fixtures/gate: (rtps, discovery, liveliness) protection kinds of the domain rule
+GovKinds(g) ==
+  LET K(r, d, l) == [rtps |-> r, disc |-> d, live |-> l] IN
+  CASE g = "N" -> K("N", "E", "E") [] g = "S" -> K("S", "E", "E") [] g = "E" -> K("E", "E", "E")
+    [] g = "NNN" -> K("N", "N", "N") [] g = "NNS" -> K("N", "N", "S") [] g = "NNE" -> K("N", "N", "E")
+    [] g = "NSN" -> K("N", "S", "N") [] g = "NSS" -> K("N", "S", "S") [] g = "NSE" -> K("N", "S", "E")
+    [] g = "NEN" -> K("N", "E", "N") [] g = "NES" -> K("N", "E", "S")
+    [] g = "ENN" -> K("E", "N", "N") [] g = "ENS" -> K("E", "N", "S") [] g = "ENE" -> K("E", "N", "E")
+    [] g = "ESN" -> K("E", "S", "N") [] g = "ESS" -> K("E", "S", "S") [] g = "ESE" -> K("E", "S", "E")
+    [] g = "EEN" -> K("E", "E", "N") [] g = "EES" -> K("E", "E", "S")
 
-Pays(kind, wr) == IF IsData(kind) THEN {"plain"} \cup (IF PayProt(wr) THEN {"enc"} ELSE {}) ELSE {"na"}
+El(t, kind, dst, wr, pay, form, w, who) ==
+  [t |-> t, id |-> 0, kind |-> kind, dst |-> dst, wr |-> wr, pay |-> pay, form |-> form, w |-> w, who |-> who]
+
+\* shapes of a submessage kind; payload variants of a shape
+Forms(kind) == IF kind = "DATA" THEN MForms ELSE IF kind = "FRAG" THEN MForms \cap {"D", "K"} ELSE {"na"}
+Pays(kind, wr, form) == IF IsData(kind) /\ form \in {"D", "K", "DK"}
+                        THEN {"plain"} \cup (IF PayProt(wr) THEN {"enc"} ELSE {}) ELSE {"na"}
+\* shapes of the submessage inside a protected one: data or key (the payload gate comes after the submessage is
+\* decoded and is the same code as for plain submessages; the odd shapes are exercised as plain submessages)
+WForms(kind) == IF IsData(kind) THEN (IF Forms(kind) \cap {"D", "K"} = {} THEN {"D"} ELSE Forms(kind) \cap {"D", "K"}) ELSE {"na"}
+\* the body of a protected submessage is hidden (ENCRYPT kinds) or readable (SIGN kinds)
+Opaque(g, key) == CASE key = "SN" -> FALSE
+                    [] key = "pmsec" -> g.live = "E"
+                    [] key \in DiscDests -> g.disc = "E"
+                    [] OTHER -> TRUE
 
 \* Matching configurations.  The readers that take part, in the order of their EntityIds (the order in
 \* which the receiver walks its readers).  Rot(k) matches reader i additionally to the second
@@ -60,49 +90,53 @@ XmOf(k) == IF k = 0 THEN {} ELSE IF k < NF THEN Rot(k) ELSE {<<MFan[i], MFan[j]>
 
 PlainEls(xm) ==
   UNION {UNION {
-     {El("ent", k, d, d, p, 0, "na") : p \in Pays(k, d)}
-     \cup (IF k \in WriterKinds THEN {El("ent", k, "UNKNOWN", d, p, 0, "na") : p \in Pays(k, d)} ELSE {})
+     UNION {{El("ent", k, d, d, p, f, 0, "na") : p \in Pays(k, d, f)}
+            \cup (IF k \in WriterKinds THEN {El("ent", k, "UNKNOWN", d, p, f, 0, "na") : p \in Pays(k, d, f)} ELSE {})
+            : f \in Forms(k)}
      : d \in MDests} : k \in MKinds}
   \* named reader, writer id of another topic: the second participant's writer matched to that reader
-  \cup UNION {{El("ent", k, x[1], x[2], p, 0, "na") : p \in Pays(k, x[2])}
+  \cup UNION {UNION {{El("ent", k, x[1], x[2], p, f, 0, "na") : p \in Pays(k, x[2], f)} : f \in Forms(k)}
               : x \in {y \in xm : y[1] # y[2]}, k \in MKinds \cap WriterKinds}
 
 \* what the peer protected with the endpoint keys of a submessage-protected topic: addressed to
 \* the right reader, to UNKNOWN, to another protected reader, to an unprotected reader
-WrapSpecs(xm) ==
-  UNION {UNION {
-     {[id |-> 0, kind |-> k, dst |-> dw[1], wr |-> dw[2], pay |-> p, key |-> key, opaque |-> (key # "SN")]
-        : dw \in {z \in ({<<key, key>>, <<"NN", key>>, <<"NN", "NN">>}
+WrapSpecs(g, xm) ==
+  UNION {UNION {UNION {
+     {[id |-> 0, kind |-> k, dst |-> dwf[1], wr |-> dwf[2], pay |-> p, form |-> dwf[3], key |-> key, opaque |-> Opaque(g, key)]
+        : p \in Pays(k, key, dwf[3])}
+        : dwf \in {<<dw[1], dw[2], f>> : f \in WForms(k), dw \in {z \in ({<<key, key>>, <<"NN", key>>, <<"NN", "NN">>}
                    \cup (IF k \in WriterKinds THEN {<<"UNKNOWN", key>>} ELSE {})
                    \* no reader id, writer id of another topic for which the key's reader is a candidate
                    \cup (IF k \in WriterKinds THEN {<<"UNKNOWN", x[2]>> : x \in {y \in xm : y[1] = key /\ y[2] # key}} ELSE {})
                    \* addressed to ANOTHER protected endpoint, also by that endpoint's matched writer
-                   \cup UNION {{<<x, key>>, <<x, x>>} : x \in {y \in MDests : SubProt(y) /\ y # key /\ y # "volatile"}})
-                  : MWraps = "all" \/ z[1] = "UNKNOWN"},
-          p \in Pays(k, key)}
-     : key \in {x \in MDests : SubProt(x)}} : k \in (MKinds \cap {"DATA", "ACK"})}
+                   \cup UNION {{<<x, key>>, <<x, x>>} : x \in {y \in MDests : SubProt(g, y) /\ y # key /\ y # "volatile"}})
+                  : MWraps = "all" \/ z[1] = "UNKNOWN"}}}
+     : key \in {x \in MDests : SubProt(g, x)}} : k \in (MKinds \cap {"DATA", "ACK"})}
 
-SecEls == {El(t, "na", "na", "na", "na", w, "na") : t \in {"P", "B", "F"}, w \in {1, 2}}
-IntEls == {El("idst", "na", "na", "na", "na", 0, "other"), El("idst", "na", "na", "na", "na", 0, "self")}
-           \cup {El("isrc", "na", "na", "na", "na", 0, s) : s \in (MSrcs \ {"peer"})}
-Alphabet(xm) == PlainEls(xm) \cup SecEls \cup IntEls
+SecEls == {El(t, "na", "na", "na", "na", "na", w, "na") : t \in {"P", "B", "F"}, w \in {1, 2}}
+IntEls == {El("idst", "na", "na", "na", "na", "na", 0, "other"), El("idst", "na", "na", "na", "na", "na", 0, "self")}
+           \cup {El("isrc", "na", "na", "na", "na", "na", 0, s) : s \in (MSrcs \ {"peer"})}
+\* (no protected submessage exists when the governance document protects none of the topics of MDests)
+Alphabet(mm) == PlainEls(mm.xm) \cup (IF mm.wraps = <<>> THEN {} ELSE SecEls) \cup IntEls
 
 Init ==
   /\ gov \in MGovs
-  /\ \E first \in {"plain", "srtps"}, src \in MSrcs, k \in MXm : \E ws \in WrapSpecs(XmOf(k)) :
-       /\ (first = "srtps") => (gov # "N" /\ src = "peer")
+  /\ \E first \in {"plain", "srtps"}, src \in MSrcs, k \in MXm :
+     \E ws \in (IF WrapSpecs(GovKinds(gov), XmOf(k)) = {} THEN {NoEl} ELSE WrapSpecs(GovKinds(gov), XmOf(k))) :
+       /\ (first = "srtps") => (GovKinds(gov).rtps # "N" /\ src = "peer")
        /\ (src = "peer2") => (k # 0)
-       /\ m = [rtps |-> (gov # "N"), first |-> first, src |-> src, xm |-> XmOf(k),
+       /\ m = [rtps |-> (GovKinds(gov).rtps # "N"), disc |-> GovKinds(gov).disc, live |-> GovKinds(gov).live,
+               first |-> first, src |-> src, xm |-> XmOf(k),
                \* two instances of the same protected submessage: parts of different instances never
                \* decode together
-               wraps |-> <<[ws EXCEPT !.id = 1], [ws EXCEPT !.id = 2]>>, els |-> <<>>]
+               wraps |-> IF ws = NoEl THEN <<>> ELSE <<[ws EXCEPT !.id = 1], [ws EXCEPT !.id = 2]>>, els |-> <<>>]
   /\ st = St0(m)
   /\ lastDel = {}
   /\ protOK = TRUE /\ flowOK = TRUE
 
 Next ==
   /\ Len(m.els) < MaxLen
-  /\ \E a \in Alphabet(m.xm) :
+  /\ \E a \in Alphabet(m) :
        LET e == [a EXCEPT !.id = IF a.t = "ent" THEN Len(m.els) + 3 ELSE 0]
            r == RecvStep(m, st, e)
        IN /\ m' = [m EXCEPT !.els = Append(@, e)]
@@ -126,7 +160,16 @@ Inv_Flows == flowOK
 
 \* vacuity guards: "invariants" that must be VIOLATED (the situations are reachable); checked by hand,
 \* see NOTES_gate.md
-Reach_ProtectedDelivered == ~(\E p \in lastDel : SubProt(p[2]))
+Reach_ProtectedDelivered == ~(\E p \in lastDel : SubProt(m, p[2]))
+\* the governance / shape dimensions: a builtin secure endpoint gets a protected submessage / plaintext (its
+\* domain-level kind is NONE); a serialized key / a dispose by key hash is handed to a reader; a plain serialized key
+\* is withheld.  (Guards that look at m.els must be checked WITHOUT the VIEW -- it hides the history, TLC evaluates an
+\* invariant only on the first state of a view class -- e.g. with MaxLen = 1.)
+Reach_SecureBuiltinProtected == ~(\E p \in lastDel : p[2] \in DiscDests \cup {"pmsec"} /\ SubProt(m, p[2]))
+Reach_SecureBuiltinPlain == ~(\E p \in lastDel : p[2] \in DiscDests \cup {"pmsec"} /\ ~SubProt(m, p[2]))
+Reach_KeyDelivered == ~(lastDel # {} /\ Len(m.els) >= 1 /\ m.els[Len(m.els)].t = "ent" /\ m.els[Len(m.els)].form \in {"K", "Q"})
+Reach_KeyBlocked == ~(lastDel = {} /\ Len(m.els) >= 1 /\ m.els[Len(m.els)].t = "ent" /\ m.els[Len(m.els)].form = "K"
+                      /\ st.sec = "None" /\ st.dstOK /\ ~Special(m))
 \* fan-out: one plain submessage without reader id is handed to a reader of another topic than the
 \* sender's / is withheld from one candidate while handed to another
 Reach_FanOutOtherTopic == ~(\E p \in lastDel : Len(m.els) >= 1 /\ m.els[Len(m.els)].t = "ent"
